@@ -11,7 +11,25 @@ _SEQ_PRE = [
     # buffer sizes as produced by _set_coo_sizes (floored at 8): at least two slots
     "forall(0, len(array_lengths), lambda a: array_lengths[a] >= 2)",
 ]
-_COO_INV = "len(coo_data) == n_windows and forall(0, n_windows, lambda c: WF(coo_data[c]) and coo_data[c].ind[0] <= len(coo_data[c].key) - 2)"
+_COO_INV = ("len(coo_data) == n_windows and forall(0, n_windows, lambda c: WF(coo_data[c]) and coo_data[c].ind[0] <= len(coo_data[c].key) - 2) "
+            # C04 at kernel level: for an arbitrary key KEY, what accumulator c stores under KEY is exactly the ghost total tot[c] of the values
+            # of the events the kernel has emitted into it with that key; every stored entry carries the cell of its key
+            "and len(tot) == n_windows and forall(0, n_windows, lambda c: KEYED(coo_data[c]) and W(coo_data[c]) == tot[c])")
+# key = col + array_mul * row with 0 <= col < array_mul: the key determines the cell
+_DEFINE_CELL = ("define('ROWOF', lambda k: k // array_mul)\ndefine('COLOF', lambda k: k % array_mul)\n"
+                "by(array_mul >= 1, array_mul == n_windows * n_unique_tokens + 1, n_windows >= 0, n_unique_tokens >= 1)")
+# every context id comes out of the sequence, so it indexes the radius table: 0 <= context <= n_unique_tokens
+_WINDOWS_BOUND = "assert forall(0, len(windows), lambda t: forall(0, len(windows[t]), lambda q: 0 <= windows[t][q] and windows[t][q] <= n_unique_tokens))"
+# the two small non-linear facts behind "the key determines the cell", each proved in isolation from the listed (linear) facts
+_KEY_CELL = ("by(0 <= col and col < array_mul, col == context + i * n_unique_tokens, array_mul == n_windows * n_unique_tokens + 1, "
+             "0 <= i, i < n_windows, 0 <= context, context <= n_unique_tokens, n_unique_tokens >= 1)\n"
+             "by(key >= 0 and key // array_mul == row and key % array_mul == col, key == col + array_mul * row, 0 <= col, col < array_mul, "
+             "row >= 0, array_mul >= 1)")
+_INTRO = ("intro_all('WF', coo_data)\nintro_all('KEYED', coo_data)\ntot = np.zeros(n_windows)\n"
+          "assert forall(0, n_windows, lambda c: coo_data[c].ind[0] == 0 and len(coo_data[c].key) >= 2 and W(coo_data[c]) == 0)")
+_EMIT = "tot[i] = tot[i] + ite(key == KEY, val, 0)"
+_FINAL = ("len(coo_data) == n_windows and len(tot) == n_windows and "
+          "forall(0, n_windows, lambda c: WF(coo_data[c]) and KEYED(coo_data[c]) and W(coo_data[c]) == tot[c])")
 CONTRACTS[T + "numba_build_skip_grams"] = dict(
     params=dict(token_sequences="list[int[]]", window_size_array="int[,]", window_reversals="bool[]", kernel_functions="funcs", kernel_args="opaque",
                 mix_weights="real[]", normalize_windows="bool", n_unique_tokens="int", array_lengths="int[]"),
@@ -20,10 +38,13 @@ CONTRACTS[T + "numba_build_skip_grams"] = dict(
     local_types=dict(kernels="list[real[]]"),
     # WF is used as an abstract predicate of the accumulator's contents here: introduced (with its definition proved) where the
     # accumulators are created, preserved by the accumulator functions' own contracts (proved with the definition in coo_utils)
-    abstract_macros=["WF"],
-    ghost_after=[("@assign:coo_data", 1, "intro_all('WF', coo_data)\nassert forall(0, n_windows, lambda c: coo_data[c].ind[0] == 0 and len(coo_data[c].key) >= 2)")],
-    requires=_SEQ_PRE,
+    abstract_macros=["WF", "KEYED"],
+    ghost_params={"KEY": "int"},
+    ghost_after=[("@assign:array_mul", 1, _DEFINE_CELL), ("@assign:coo_data", 1, _INTRO), ("@assign:windows", 1, _WINDOWS_BOUND),
+                 ("@assign:key", 1, _KEY_CELL), ("@call:coo_append", 1, _EMIT)],
+    requires=_SEQ_PRE + ["window_size_array.shape[1] <= n_unique_tokens + 1"],
     ensures=["len(result) == len(window_size_array)"],
+    ensures_ghost=["forall(0, len(result), lambda c: W(result[c]) == tot[c])"],
     loops={
         "for#1": dict(invariant=[_COO_INV]),
         "for#2": dict(invariant=[_COO_INV]),
@@ -32,7 +53,7 @@ CONTRACTS[T + "numba_build_skip_grams"] = dict(
         "for#4": dict(invariant=[_COO_INV, "len(windows) == n_windows and len(kernels) == n_windows", "forall(0, n_windows, lambda t: len(kernels[t]) == len(windows[t]))"]),
         "for#5": dict(invariant=[_COO_INV, "len(windows) == n_windows and len(kernels) == n_windows", "forall(0, n_windows, lambda t: len(kernels[t]) == len(windows[t]))",
                                  "len(this_ker) == len(window)"]),
-        "for#6": dict(invariant=["len(coo_data) == n_windows"]),
+        "for#6": dict(invariant=[_FINAL]),
     },
 )
 
@@ -52,10 +73,14 @@ CONTRACTS[NGK + "numba_build_skip_grams"] = dict(
                 ngram_size="int", array_to_tuple="func"),
     symbolic_consts={"COO_QUICKSORT_LIMIT": "int; COO_QUICKSORT_LIMIT >= 1"},
     func_params={"kernel_functions": dict(returns="real[]", ensures=["len(ret) == len(arg0)"]), "array_to_tuple": dict(returns="keyfn")},
-    abstract_macros=["WF"],
-    ghost_after=[("@assign:coo_data", 1, "intro_all('WF', coo_data)\nassert forall(0, n_windows, lambda c: coo_data[c].ind[0] == 0 and len(coo_data[c].key) >= 2)")],
-    requires=_NG_PRE,
+    abstract_macros=["WF", "KEYED"],
+    ghost_params={"KEY": "int"},
+    ghost_after=[("@assign:array_mul", 1, _DEFINE_CELL), ("@assign:coo_data", 1, _INTRO), ("@assign:windows", 1, _WINDOWS_BOUND),
+                 ("@assign:key", 1, _KEY_CELL), ("@call:coo_append", 1, _EMIT)],
+    # context ids are token ids (columns), rows are n-gram indices
+    requires=_NG_PRE + ["forall(0, len(token_sequences), lambda d: forall(0, len(token_sequences[d]), lambda p: 0 <= token_sequences[d][p] and token_sequences[d][p] <= n_unique_tokens))"],
     ensures=["len(result) == len(window_size_array)"],
+    ensures_ghost=["forall(0, len(result), lambda c: W(result[c]) == tot[c])"],
     loops={
         "for#1": dict(invariant=[_COO_INV, "len(window_reversal_const) == len(window_reversals)"]),
         "for#2": dict(invariant=[_COO_INV, "len(window_reversal_const) == len(window_reversals)",
@@ -63,7 +88,7 @@ CONTRACTS[NGK + "numba_build_skip_grams"] = dict(
         "for#3": dict(invariant=[_COO_INV, "len(windows) == n_windows and len(kernels) == n_windows", "forall(0, n_windows, lambda t: len(kernels[t]) == len(windows[t]))"]),
         "for#4": dict(invariant=[_COO_INV, "len(windows) == n_windows and len(kernels) == n_windows", "forall(0, n_windows, lambda t: len(kernels[t]) == len(windows[t]))",
                                  "len(this_ker) == len(window)"]),
-        "for#5": dict(invariant=["len(coo_data) == n_windows"]),
+        "for#5": dict(invariant=[_FINAL]),
     },
 )
 
@@ -76,30 +101,36 @@ CONTRACTS[TM + "numba_build_skip_grams"] = dict(
     func_params={"kernel_functions": dict(returns="real[]", ensures=["len(ret) == len(arg0)"])},
     local_types=dict(kernels="list[real[]]", windows="list[int[]]"),
     inline_calls=["window_at_index"],   # called on a 2-D array here; its body is two slices
-    abstract_macros=["WF"],
-    ghost_after=[("@assign:coo_data", 1, "intro_all('WF', coo_data)\nassert forall(0, n_windows, lambda c: coo_data[c].ind[0] == 0 and len(coo_data[c].key) >= 2)")],
+    abstract_macros=["WF", "KEYED"],
+    ghost_params={"KEY": "int"},
+    ghost_after=[("@assign:array_mul", 1, _DEFINE_CELL), ("@assign:coo_data", 1, _INTRO),
+                 ("@assign:key", 1, _KEY_CELL), ("@call:coo_append", 1, _EMIT)],
     requires=[
         "n_unique_tokens >= 1",
         "len(window_reversals) == len(window_size_array) and len(mix_weights) == len(window_size_array) and len(array_lengths) == len(window_size_array)",
         "forall(0, len(token_sequences), lambda d: forall(0, len(token_sequences[d]), lambda p: 0 <= token_sequences[d][p, 0] and token_sequences[d][p, 0] < window_size_array.shape[1]))",
         "forall(0, window_size_array.shape[0], lambda a: forall(0, window_size_array.shape[1], lambda b: window_size_array[a, b] >= 0))",
         "forall(0, len(array_lengths), lambda a: array_lengths[a] >= 2)",
+        "window_size_array.shape[1] <= n_unique_tokens + 1",
     ],
     ensures=["len(result) == len(window_size_array)"],
+    ensures_ghost=["forall(0, len(result), lambda c: W(result[c]) == tot[c])"],
     loops={
         "for#1": dict(invariant=[_COO_INV]),
         "for#2": dict(invariant=[_COO_INV]),
-        "for#3": dict(invariant=[_COO_INV, "len(windows) == i and len(kernels) == i", "forall(0, i, lambda t: len(kernels[t]) == len(windows[t]))"]),
+        "for#3": dict(invariant=[_COO_INV, "len(windows) == i and len(kernels) == i", "forall(0, i, lambda t: len(kernels[t]) == len(windows[t]))",
+                                 "forall(0, i, lambda t: forall(0, len(windows[t]), lambda q: 0 <= windows[t][q] and windows[t][q] <= n_unique_tokens))"]),
         "for#4": dict(invariant=[_COO_INV, "len(windows) == n_windows and len(kernels) == n_windows", "forall(0, n_windows, lambda t: len(kernels[t]) == len(windows[t]))"]),
         "for#5": dict(invariant=[_COO_INV, "len(windows) == n_windows and len(kernels) == n_windows", "forall(0, n_windows, lambda t: len(kernels[t]) == len(windows[t]))",
                                  "len(this_ker) == len(window)"]),
-        "for#6": dict(invariant=["len(coo_data) == n_windows"]),
+        "for#6": dict(invariant=[_FINAL]),
     },
 )
 
 # ---------------------------------------------------------------- multiset variant (one document = a list of multisets)
 MS = "vectorizers/multi_token_cooccurence_vectorizer.py::"
 _LENS = "[len(m) for m in multi_window]"
+_TWB = "forall(0, j, lambda q: 0 <= this_window[q] and this_window[q] <= n_unique_tokens)"
 _MW = ["len(windows) == i and len(kernels) == i", "forall(0, i, lambda t: len(kernels[t]) == len(windows[t]))"]
 CONTRACTS[MS + "numba_build_multi_skip_grams"] = dict(
     params=dict(token_sequences="list[int[]]", window_size_array="int[,]", window_reversals="bool[]", kernel_functions="funcs", kernel_args="opaque",
@@ -108,26 +139,35 @@ CONTRACTS[MS + "numba_build_multi_skip_grams"] = dict(
     # a multiset kernel returns one weight per element of the flattened window
     func_params={"kernel_functions": dict(returns="real[]", ensures=["len(ret) == psum([len(m) for m in arg0], len(arg0))"])},
     local_types=dict(kernels="list[real[]]", windows="list[int[]]"),
-    abstract_macros=["WF"],
-    ghost_after=[("@assign:coo_data", 1, "intro_all('WF', coo_data)\nassert forall(0, n_windows, lambda c: coo_data[c].ind[0] == 0 and len(coo_data[c].key) >= 2)"),
+    abstract_macros=["WF", "KEYED"],
+    ghost_params={"KEY": "int"},
+    ghost_after=[("@assign:array_mul", 1, _DEFINE_CELL), ("@assign:coo_data", 1, _INTRO),
+                 ("@assign:key", 1, _KEY_CELL), ("@call:coo_append", 1, _EMIT),
                  ("@assign:result_len", 1, "lemma(psum_monotone(%s))" % _LENS)],
     requires=[
         "n_unique_tokens >= 1", "window_size_array.shape[1] >= 1",
         "len(window_reversals) == len(window_size_array) and len(mix_weights) == len(window_size_array) and len(array_lengths) == len(window_size_array)",
         "forall(0, window_size_array.shape[0], lambda a: forall(0, window_size_array.shape[1], lambda b: window_size_array[a, b] >= 0))",
         "forall(0, len(array_lengths), lambda a: array_lengths[a] >= 2)",
+        # every token id is a row / column id
+        "forall(0, len(token_sequences), lambda d: forall(0, len(token_sequences[d]), lambda p: 0 <= token_sequences[d][p] and token_sequences[d][p] <= n_unique_tokens))",
     ],
     ensures=["len(result) == len(window_size_array)"],
+    ensures_ghost=["forall(0, len(result), lambda c: W(result[c]) == tot[c])"],
     loops={
         "for#1": dict(invariant=[_COO_INV]),
         "for#2": dict(invariant=[_COO_INV]),
-        "for#3": dict(invariant=[_COO_INV] + _MW),
+        "for#3": dict(invariant=[_COO_INV] + _MW + ["forall(0, i, lambda t: forall(0, len(windows[t]), lambda q: 0 <= windows[t][q] and windows[t][q] <= n_unique_tokens))"]),
         "for#4": dict(invariant=["result_len == psum(%s, _k_for4)" % _LENS]),
-        "for#5": dict(invariant=["j == psum(%s, _k_for5)" % _LENS, "len(this_window) == result_len and result_len == psum(%s, len(multi_window))" % _LENS]),
-        "for#6": dict(invariant=["j == psum(%s, _k_for5) + _k_for6" % _LENS, "len(this_window) == result_len and result_len == psum(%s, len(multi_window))" % _LENS]),
+        "for#5": dict(invariant=["j == psum(%s, _k_for5)" % _LENS, "len(this_window) == result_len and result_len == psum(%s, len(multi_window))" % _LENS, _TWB]),
+        # the remaining elements of this multiset fit below result_len (a ground instance of the prefix-sum lemma, introduced once per
+        # multiset): the store index is then linear arithmetic
+        "for#6": dict(ghost_init="lemma(psum_bound(%s, _k_for5, len(multi_window)))" % _LENS,
+                      invariant=["j == psum(%s, _k_for5) + _k_for6" % _LENS, "len(this_window) == result_len and result_len == psum(%s, len(multi_window))" % _LENS, _TWB,
+                                 "j + len(mset) - _k_for6 <= result_len"]),
         "for#7": dict(invariant=[_COO_INV, "len(windows) == n_windows and len(kernels) == n_windows", "forall(0, n_windows, lambda t: len(kernels[t]) == len(windows[t]))"]),
         "for#8": dict(invariant=[_COO_INV, "len(windows) == n_windows and len(kernels) == n_windows", "forall(0, n_windows, lambda t: len(kernels[t]) == len(windows[t]))",
                                  "len(this_ker) == len(window)"]),
-        "for#9": dict(invariant=["len(coo_data) == n_windows"]),
+        "for#9": dict(invariant=[_FINAL]),
     },
 )
